@@ -468,7 +468,37 @@ def make_world(repo=None):
             head = simp(parts[0])
             if isinstance(head, str): return head.rstrip('/') or ('/' if True else '')
             raise OutsideSubset('os.path.dirname of a symbolic head')
-        return _mod('os.path', basename=PBuiltin(basename, 'basename'), dirname=PBuiltin(dirname, 'dirname'), sep='/')
+        def join(it_, *parts):
+            out = None
+            for q in parts:
+                q = it_.to_str(q)
+                lq = V._lit(it_, q)
+                if lq is None:
+                    a0 = it_.st.norm(S(q)).atoms
+                    if not (a0 and isinstance(a0[0], str) and a0[0]): raise OutsideSubset('os.path.join of a part whose first character is symbolic')
+                    absolute = a0[0].startswith('/')
+                else: absolute = lq.startswith('/')
+                if out is None or absolute: out = q
+                else:
+                    lo = V._lit(it_, out)
+                    tail = it_.st.norm(S(out)).atoms[-1] if lo is None else lo
+                    if not isinstance(tail, str): raise OutsideSubset('os.path.join after a part whose last character is symbolic')
+                    out = it_.concat([out, q]) if (tail.endswith('/') or (lo == '')) else it_.concat([out, '/', q])
+            return simp(out) if out is not None else ''
+        def splitext(it_, p):
+            ps = it_.to_str(p); nm = fsmodel.name_of(it_, ps); suf, stem = fsmodel.suffix_of(it_, nm)
+            if isinstance(suf, str) and suf == '': return (ps, '')
+            par = it_.st.rsplit1(S(ps), '/', 'os.path.splitext')
+            return (simp(it_.concat([par[0], '/', stem])) if len(par) == 2 else stem, suf)
+        def fs_q(kind):
+            def q(it_, p):
+                fs = getattr(it_, 'fs', None)
+                if fs is None: raise OutsideSubset('os.path.' + kind + ' without a ghost file system')
+                k = fs.state(it_.to_str(p))[1]
+                return {'exists': k != 'absent', 'isfile': k == 'file', 'isdir': k == 'dir'}[kind]
+            return PBuiltin(q, 'os.path.' + kind)
+        return _mod('os.path', basename=PBuiltin(basename, 'basename'), dirname=PBuiltin(dirname, 'dirname'), join=PBuiltin(join, 'join'), splitext=PBuiltin(splitext, 'splitext'),
+                    exists=fs_q('exists'), isfile=fs_q('isfile'), isdir=fs_q('isdir'), sep='/')
     sp['os.path'] = m_ospath
     sp['os'] = lambda it: _mod('os', sep='/', path=Lazy('os.path', None), PathLike=Opaque('PathLike'), environ=PDict())
     class FormatterModel:
